@@ -128,6 +128,8 @@ def killedFetches (n : Nat) (idem : Bool) (pageFaultLetters : List (List Char)) 
   let att0 := pageFaults (fs0.map Fetch.trace)
   let nodes0 := (fs0.map Fetch.nodes).flatten
   let served := (List.range (min m att0.length)).filter fun i => att0.getD i .retry == .ok
+  if m ≥ att0.length then fs0        -- nothing was requested after the kill
+  else
   match served.getLast? with
   | none => fs0
   | some i =>
